@@ -258,49 +258,81 @@ def _child_plan(conn, spec, plan, scratch, timeout, confirm_hangs, stop_on_hang,
         os._exit(0)
 
 
-def run_schedules(spec: dict, seeds: list[int], scratch: str, timeout: float = 30.0, plain_first: bool = True,
-                  confirm_hangs: bool = True, stop_on_hang: bool = False) -> list[dict]:
-    """the spec under each PRNG schedule (plus, first, the default asyncio order). All runs of one workflow happen in ONE
-    forked child with a hard wall-clock bound: the implementation's own hangs are detected inside `run_spec` (watchdog on
-    executor.run()); the hard bound only protects the check against a harness / event-loop-shutdown hang, which is
-    reported as a harness error for the runs that did not come back — never as a pass, never as a violation."""
+def run_many(jobs: list[dict], scratch: str, timeout: float = 30.0, plain_first: bool = True, stop_on_hang: bool = False,
+             workers: int | None = None) -> list[list[dict]]:
+    """jobs = [{"spec": ..., "seeds": [...], "confirm_hangs": bool}]: every job's runs (default asyncio order first, then
+    the PRNG schedules) happen in ONE forked child; up to `workers` children run at the same time. Every child has a hard
+    wall-clock bound: the implementation's own hangs are detected inside `run_spec` (watchdog on executor.run()); the hard
+    bound only protects the check against a harness / event-loop-shutdown hang, which is reported as a harness error for
+    the runs that did not come back — never as a pass, never as a violation."""
     import multiprocessing as mp
+    from multiprocessing.connection import wait as mp_wait
+    import time
 
-    plan = ([(0, False)] if plain_first else []) + [(s, True) for s in seeds]
-    if not plan:
-        return []
+    workers = workers or max(1, min(6, (os.cpu_count() or 4) // 3))
     ctx = mp.get_context("fork")
-    parent, child = ctx.Pipe(duplex=False)
-    hard = len(plan) * (timeout + 10) + timeout * 3 + 60
-    dump_path = os.path.join(scratch, f"stuck-{os.getpid()}-{id(plan)}.txt")
-    proc = ctx.Process(target=_child_plan, args=(child, spec, plan, scratch, timeout, confirm_hangs, stop_on_hang, dump_path, hard - 20),
-                       daemon=True)
-    proc.start()
-    child.close()
-    try:
-        if parent.poll(hard):
-            out = parent.recv()
-        else:
+    results: list = [None] * len(jobs)
+    todo = list(range(len(jobs)))[::-1]
+    active: dict = {}          # conn -> (idx, proc, plan, dump_path, deadline)
+
+    def failed(plan, detail):
+        return [{"seed": sd, "shuffle": sh, "outcome": {"kind": "harness-error", "detail": detail}} for sd, sh in plan]
+
+    def finish(conn, out):
+        idx, proc, plan, dump_path, _ = active.pop(conn)
+        results[idx] = out
+        if proc.is_alive():
+            proc.kill()
+        proc.join(5)
+        conn.close()
+        try:
+            os.unlink(dump_path)
+        except OSError:
+            pass
+
+    while todo or active:
+        while todo and len(active) < workers:
+            idx = todo.pop()
+            job = jobs[idx]
+            plan = ([(0, False)] if plain_first else []) + [(sd, True) for sd in job["seeds"]]
+            if not plan:
+                results[idx] = []
+                continue
+            hard = len(plan) * (timeout + 10) + timeout * 3 + 60
+            dump_path = os.path.join(scratch, f"stuck-{os.getpid()}-{idx}-{time.time_ns()}.txt")
+            parent, child = ctx.Pipe(duplex=False)
+            proc = ctx.Process(target=_child_plan, daemon=True,
+                               args=(child, job["spec"], plan, scratch, timeout, job.get("confirm_hangs", True), stop_on_hang,
+                                     dump_path, hard - 20))
+            proc.start()
+            child.close()
+            active[parent] = (idx, proc, plan, dump_path, time.time() + hard)
+        if not active:
+            break
+        for conn in mp_wait(list(active), timeout=0.5):
+            plan = active[conn][2]
+            try:
+                out = conn.recv()
+            except (EOFError, OSError) as e:
+                out = failed(plan, f"worker died: {e!r}")
+            finish(conn, out)
+        now = time.time()
+        for conn in [c for c, v in active.items() if now > v[4]]:
+            _, _, plan, dump_path, _ = active[conn]
             where = ""
             try:
                 where = " | stacks: " + open(dump_path).read()[-1200:].replace("\n", " / ")
             except OSError:
                 pass
-            out = [{"seed": sd, "shuffle": sh, "outcome": {"kind": "harness-error",
-                                                           "detail": f"the runs of this workflow did not come back within {hard:.0f}s (killed){where}"}}
-                   for sd, sh in plan]
-    except (EOFError, OSError) as e:
-        out = [{"seed": sd, "shuffle": sh, "outcome": {"kind": "harness-error", "detail": f"worker died: {e!r}"}} for sd, sh in plan]
-    finally:
-        if proc.is_alive():
-            proc.kill()
-        proc.join(5)
-        parent.close()
-        try:
-            os.unlink(dump_path)
-        except OSError:
-            pass
-    return out
+            finish(conn, failed(plan, f"the runs of this workflow did not come back within the hard bound (killed){where}"))
+    return results
+
+
+def run_schedules(spec: dict, seeds: list[int], scratch: str, timeout: float = 30.0, plain_first: bool = True,
+                  confirm_hangs: bool = True, stop_on_hang: bool = False) -> list[dict]:
+    """the spec under each PRNG schedule (plus, first, the default asyncio order); see `run_many`"""
+    return run_many([{"spec": spec, "seeds": seeds, "confirm_hangs": confirm_hangs}], scratch, timeout=timeout,
+                    plain_first=plain_first, stop_on_hang=stop_on_hang, workers=1)[0]
 
 
 def spec_bucket(spec: dict) -> str:
